@@ -380,6 +380,14 @@ func (r *rewriter) file_(f *ast.File) bool {
 					if len(x.Args) == 1 {
 						x.Args[0] = simCall("Wrap", r.site(x, "errgroup-go"), x.Args[0])
 					}
+				case "(*os.File).Write":
+					// file writes of the job store go through a seam that can
+					// make them fail (disk full) and is a crash/yield point
+					if ioPkgs[r.pkg] && len(x.Args) == 1 {
+						c.Replace(simCall("FileWrite", r.site(x, "io"), sel.X, x.Args[0]))
+						r.usedSim = true
+						changed = true
+					}
 				case "(*sync.Map).Range":
 					if len(x.Args) == 1 {
 						recv := sel.X
